@@ -24,6 +24,17 @@ def make_replay(pid, o, f, r, repo, scratch):
             found = True
     except Exception as e:  # the witness search never decides anything
         doc['witness_search_error'] = repr(e)
+    if f.get('harness'):
+        try:
+            import kani_unit
+            cp = kani_unit.concrete_playback(f['group'], f['harness'], repo, scratch)
+            doc['counterexample'] = cp
+            if cp.get('reproduced'):
+                found = True
+                doc['failing_input'] = dict(kind='kani concrete playback, executed natively against the crate built from /repo',
+                                            harness=f['harness'], values=cp['values'], native_output=cp['output'])
+        except Exception as e:
+            doc['playback_error'] = repr(e)
     if f.get('counterexample'):
         doc['counterexample'] = f['counterexample']
         found = found or bool(f.get('replayed'))
